@@ -177,11 +177,20 @@ def sh(cmd, cwd=None, env=None, timeout=900):
     e = dict(os.environ)
     if env:
         e.update(env)
+    # own process group, killed as a whole on timeout (a mutant may make a check or a test hang)
+    import signal
+    pr = subprocess.Popen(cmd, shell=True, cwd=cwd, env=e, stdout=subprocess.PIPE, stderr=subprocess.STDOUT, text=True,
+                          start_new_session=True)
     try:
-        p = subprocess.run(cmd, shell=True, cwd=cwd, env=e, stdout=subprocess.PIPE, stderr=subprocess.STDOUT, text=True, timeout=timeout)
-        return p.returncode, p.stdout
-    except subprocess.TimeoutExpired as ex:
-        return 124, (ex.stdout or b"").decode("utf8", "replace") if isinstance(ex.stdout, bytes) else (ex.stdout or "")
+        out, _ = pr.communicate(timeout=timeout)
+        return pr.returncode, out
+    except subprocess.TimeoutExpired:
+        try:
+            os.killpg(pr.pid, signal.SIGKILL)
+        except ProcessLookupError:
+            pass
+        out, _ = pr.communicate()
+        return 124, out or ""
 
 
 class Worker:
